@@ -47,10 +47,16 @@ BLIND.update({
  "C07-m": ("incidental", "reported by C06.add.recheck-present only (repeats C06-a); added C07.safety.duplicate-delivery-is-not-summarised-twice"),
  "C17-m": ("incidental", "reported by C06.step.kid-xor-jwk.both only; the obligation is now also C17.dag.kid-xor-jwk"),
 })
+BLIND.update({
+ "C07-n": ("missed", "added C07.progress.list-query-answered-for-every-requested-ref"),
+ "C08-n": ("missed", "added C08.tree.replace-marks-the-leaf-dirty"),
+ "C10-n": ("missed", "added C10.resolve.metadata-used-as-given"),
+ "C18-n": ("missed", "added C18.migrate.history-cut-at-deactivation"),
+})
 n=0
 SRC=sys.argv[1] if len(sys.argv)>1 else '/tmp/seeds6'
-RND='round 8' if 'seeds8' in SRC else ('round 7' if 'seeds7' in SRC else 'round 6')
-for src in sorted(glob.glob(SRC+'/C??-[ijkm]')):
+RND='round 9' if 'seeds9' in SRC else 'round 8' if 'seeds8' in SRC else ('round 7' if 'seeds7' in SRC else 'round 6')
+for src in sorted(glob.glob(SRC+'/C??-[ijkmn]')):
     sid=os.path.basename(src)
     if not os.path.exists(src+'/patch.diff') or not os.path.exists(src+'/verify.txt'):
         print('skip',sid); continue
